@@ -123,7 +123,7 @@ def run(rep, prop=PROP):
     rep.cov['mode'] = mode
     if mode == 'stress':
         rep.notes.append('instrumenter refused the source (%s): hook-free stress + outcome oracle only' % bmsg.strip()[:600])
-    escalate = bool(changed) or proof_broken is not None or mode == 'stress'
+    escalate = bool(changed) or proof_broken is not None or mode == 'stress' or os.environ.get('VERIF_C17_ESCALATE') == '1'
     rep.assumptions += ['A-go-mm: sync/atomic operations are sequentially consistent; a maximal run of plain accesses between two synchronisation operations acts as one step',
                         'A-runtask: runner.RunTask runs the task exactly once, asynchronously (harness: go f())',
                         'A-sched-fair: every enabled goroutine is eventually scheduled (termination is not proved, only quiescence is characterised)',
